@@ -1166,6 +1166,9 @@ func (c *ArrayConverter) To(obj Object) (interface{}, error) {
 	if !ok {
 		return nil, errz.TypeErrorf("type error: expected a list (%s given)", obj.Type())
 	}
+	if len(list.items) != c.len {
+		return nil, errz.TypeErrorf("type error: expected a list of length %d (length %d given)", c.len, len(list.items))
+	}
 	array := reflect.New(reflect.ArrayOf(c.len, c.valueType))
 	arrayElem := array.Elem()
 	for i, v := range list.items {
